@@ -103,6 +103,25 @@ func (w *diffWorker) compareSides(op byte, pre ref.State, rp, ra stepRes, mp, ma
 		w.r.Fail("wdm", fmt.Sprintf("%s %s: WDM %02x vs %02x", where, name, w.rig.prim.WDM, w.rig.alt.WDM), detail())
 		return false
 	}
+	if mp.KeepLog && ma.KeepLog {
+		// what the memory devices see: the same bytes written to the same addresses in the same order
+		// (a device whose cells are not independent - a port mirrored over its window - sees the order)
+		var wp, wa []mem.Access
+		for _, x := range mp.Log {
+			if x.Write {
+				wp = append(wp, x)
+			}
+		}
+		for _, x := range ma.Log {
+			if x.Write {
+				wa = append(wa, x)
+			}
+		}
+		if fmt.Sprint(wp) != fmt.Sprint(wa) {
+			w.r.Fail("write-order:"+ref.MnemNames[ref.Table[op].M]+" "+ref.ModeNames[ref.Table[op].Mode], fmt.Sprintf("%s %s: bus writes (address value) primary %v alternative %v | pre={%v}", where, name, wp, wa, pre), detail())
+			return false
+		}
+	}
 	if w.skipMem {
 		return true
 	}
@@ -133,6 +152,7 @@ func modeState(g *vf.Rng, op byte, e bool, mx byte, d byte) (ref.State, *mem.Ima
 
 func (w *diffWorker) single(s0 ref.State, base *mem.Image, stale bool, g *vf.Rng, where string) bool {
 	mp, ma := base.Clone(), base.Clone()
+	mp.KeepLog, ma.KeepLog = true, true // the order of the bus writes of one step is compared too
 	w.rig.loadPrim(s0, stale, g)
 	w.rig.loadAltFromPrim()
 	op := base.Peek(uint32(s0.K)<<16 | uint32(s0.PC))
